@@ -312,6 +312,50 @@ def work_cells(job):
                         if not W.vclose(o1[1], exp, rel=1e-12, abs_=1e-12):
                             acc.violation(dict(case, verdict='wrong-selection', observed=jsonable(o1[1]), expected=exp),
                                           f'{f} with A1={a!r}, B1={b!r}, criterion {crit!r} = {o1[1]!r}, expected {exp!r}')
+    # error values in the AGGREGATED range: one in a selected cell is the result, one in an unselected cell is ignored;
+    # never an exception, never a piece of the error text
+    crange = [1, 2, 3, 'x']
+    for epos in range(4):
+        for err in ('#DIV/0!', '#N/A'):
+            vals = [10, 20, 40, 80]
+            vals[epos] = err
+            env = {f'A{i + 1}': crange[i] for i in range(4)}
+            env.update({f'B{i + 1}': vals[i] for i in range(4)})
+            for crit in ('>0', '>1', 2, 'x', '<>x', '>5'):
+                env['K1'] = crit
+                sel = [matches(c, crit) for c in crange]
+                chosen = [v for s_, v in zip(sel, vals) if s_]
+                for fn, f in (('SUM', '=SUMIF(A1:A4,K1,B1:B4)'), ('SUM', '=SUMIFS(B1:B4,A1:A4,K1)'), ('AVERAGE', '=AVERAGEIF(A1:A4,K1,B1:B4)'),
+                              ('AVERAGE', '=AVERAGEIFS(B1:B4,A1:A4,K1)'), ('MAX', '=MAXIFS(B1:B4,A1:A4,K1)'), ('MIN', '=MINIFS(B1:B4,A1:A4,K1)')):
+                    o = ev.run(f, env)
+                    acc.add('evaluations')
+                    acc.add('states')
+                    acc.add('distinct_nontrivial')
+                    want = err if err in chosen else expected(fn, sel, vals)
+                    case = dict(kind='cells', fn=f.split('(')[0][1:], formula=f, a=jsonable(vals), b=None, crit=crit, error_cell=epos)
+                    if o[0] != 'ok':
+                        acc.violation(dict(case, verdict='raised'), f'{f} with A1:A4={crange}, B1:B4={vals}, K1={crit!r} raised {o[1]}: {o[2][-100:]}')
+                    elif not W.vclose(o[1], want, rel=1e-12, abs_=1e-12):
+                        acc.violation(dict(case, verdict='wrong-selection', observed=jsonable(o[1]), expected=jsonable(want)),
+                                      f'{f} with A1:A4={crange}, B1:B4={vals}, K1={crit!r} = {o[1]!r}, expected {want!r}')
+    # criteria and cells holding a line break
+    cells = ['a\nb', 'a', '\n', 'x\ny', 'A\nB']
+    env = {f'A{i + 1}': c for i, c in enumerate(cells)}
+    env.update({f'B{i + 1}': 2 ** i for i in range(5)})
+    for crit, want in (('a\nb', [0, 4]), ('=a\nb', [0, 4]), ('<>a\nb', [1, 2, 3]), ('\n', [2]), ('a*', [0, 1, 4]), ('*\n*', [0, 2, 3, 4]),
+                       ('?\n?', [0, 3, 4]), ('<>*\n*', [1])):
+        env['K1'] = crit
+        for fn, f in (('COUNT', '=COUNTIF(A1:A5,K1)'), ('COUNT', '=COUNTIFS(A1:A5,K1)'), ('SUM', '=SUMIF(A1:A5,K1,B1:B5)')):
+            o = ev.run(f, env)
+            acc.add('evaluations')
+            acc.add('states')
+            exp = len(want) if fn == 'COUNT' else sum(2 ** i for i in want)
+            case = dict(kind='cells', fn=f.split('(')[0][1:], formula=f, a=cells, b=None, crit=crit)
+            if o[0] != 'ok':
+                acc.violation(dict(case, verdict='raised'), f'{f} with cells {cells}, criterion {crit!r} raised {o[1]}: {o[2][-100:]}')
+            elif not W.veq(o[1], exp):
+                acc.violation(dict(case, verdict='wrong-selection', observed=jsonable(o[1]), expected=exp),
+                              f'{f} with cells {cells}, criterion {crit!r} = {o[1]!r}, expected {exp!r} (positions {want})')
     acc.counts['transitions'] = acc.counts.get('evaluations', 0)
     return acc.result()
 
